@@ -422,13 +422,12 @@ pub fn c14_adjacency_map_bicliques() {
     named::<AdjacencyMap>();
 }
 
-// AdjacencyList::complete(5) with 2 and with 8 worker threads (chunks 3+2; one row per thread).
+// AdjacencyList::complete(5) with 2 worker threads (chunks of 3 and 2 rows).
 // @verif prop=C14 tier=quick fl=f2 role=complete-threads/adjacency-list t=1500 mem=14
 #[cfg_attr(kani, kani::proof)]
 #[cfg_attr(kani, kani::unwind(10))]
-pub fn c14_complete_threads_n5_t2_t8() {
+pub fn c14_complete_threads_n5_t2() {
     complete_threads(5, cx::EXACT + 2);
-    complete_threads(5, cx::EXACT + 8);
 }
 
 // @verif prop=C14 tier=quick fl=f0 role=rejects/matrix t=1200 mem=12 expect=panic
